@@ -27,6 +27,8 @@ type System struct {
 	MaxDepth  int
 	Workers   int
 	Stop      func() bool
+	// Tick, if set, is called after every Step (progress report for watchdogs).
+	Tick func()
 	// MaxStates caps the number of states (0 = none); reaching it ends the search (not exhaustive).
 	MaxStates int64
 }
@@ -100,6 +102,9 @@ func Search(sys System) Result {
 						copy(nh, h)
 						nh[len(h)] = op
 						key, ok := sys.Step(nh)
+						if sys.Tick != nil {
+							sys.Tick()
+						}
 						if !ok {
 							continue
 						}
